@@ -413,7 +413,10 @@ def run_appender(ctx, exe, drv):
         blocks, partial = parse_blocks(out)
         if rc != 0 or len(blocks) != len(group):
             bad = group[len(blocks)] if len(blocks) < len(group) else group[-1]
-            text = "mode=appender\n%s\n# harness rc=%s\n# %s" % (bad, rc, err[-2500:].replace("\n", "\n# "))
+            head = [l for l in err.splitlines() if "ERROR: AddressSanitizer" in l or l.startswith("SUMMARY:") or "runtime error" in l][:3]
+            text = "mode=appender\n%s\n# harness rc=%s%s\n# %s\n# ...\n# %s" % (
+                bad, rc, " (no result within the time limit: the appender is wedged)" if rc == -999 else "",
+                "\n# ".join(head), err[-1800:].replace("\n", "\n# "))
             dist["oracle_failures"] += 1
             ctx.failing_input("crash:appender:" + ("hang" if rc == -999 else "abort"), text)
         for b in blocks:
